@@ -6,13 +6,22 @@
 
    Every wrapped system call is performed for real (real descriptors, real files) unless the script says it fails:
      create script  (one entry per open() call):   o = succeed, f = open fails (EACCES), l = the flock that follows fails
-     write  script  (one entry per pwrite() call): F = write everything, E = fail (EIO), <n> = write min(n,len) bytes
-   each with a tail value used once the listed entries are exhausted (persistent faults).
+     write  script  (one entry per pwrite() call): F = write everything, <n> = write min(n,len) bytes,
+                    E | EIO | ENOSPC | EAGAIN | EINTR | EBADF = return -1 with that errno (E = EIO)
+   each with a tail value used once the listed entries are exhausted (persistent faults: every call from index k on).
    Every call is logged on descriptor 1 at once (no buffering: the log must survive a crash):
-     S open <path> <fd|-1>      S flock <fd> <0|-1> k=<b>     S pwrite <fd> <off> <len> <res> k=<b>     S close <fd> <0|-1> k=<b>
+     S open <path> <fd|-1>      S flock <fd> <0|-1> k=<b>     S pwrite <fd> <off> <len> <res> [e=<errno name>] k=<b>
+     S close <fd> <0|-1> k=<b>
      A file_create <ret>        A file_write <ret>      A file_close
    k=<b>: whether the kernel had the descriptor number open when the call was made (fcntl F_GETFD) -- the ground truth
-   the descriptor oracle uses, independent of which calls happen to be interposed.                                     */
+   the descriptor oracle uses, independent of which calls happen to be interposed.
+
+   Step budget (a device call that never returns must be an observable, quickly):
+     - ONE device call that logs more than MAXLOG lines is recursing or looping:  TRUNC, exit 79;
+     - the SAME pwrite (descriptor, buffer, length, offset) reissued SPIN_LIMIT times in a row, each time without
+       progress (result -1 or 0), is a loop that will never end by itself:  SPIN <fd> <off> <len> <res> <errno> <n>, exit 80
+       (repeats beyond SPIN_QUIET are not logged).  A bounded retry (the code's own three zero-length results, or a
+       few dozen reissues of an interrupted call) stays far below the limit.                                         */
 #define _GNU_SOURCE
 #include <errno.h>
 #include <fcntl.h>
@@ -40,7 +49,19 @@ void __real_file_close(struct file* file);
 static char c_script[MAXSCRIPT];
 static int c_n = 0;
 static char c_tail = 'o';
-static long w_script[MAXSCRIPT]; /* -1 = F, -2 = E, >= 0 count */
+static long w_script[MAXSCRIPT]; /* -1 = F, -2 - i = fail with w_errno[i], >= 0 count */
+static const struct
+{
+    const char* name;
+    int code;
+} w_errno[] = { { "EIO", EIO }, { "ENOSPC", ENOSPC }, { "EAGAIN", EAGAIN }, { "EINTR", EINTR }, { "EBADF", EBADF } };
+#define N_ERRNO ((int)(sizeof w_errno / sizeof w_errno[0]))
+#define SPIN_LIMIT 1000
+#define SPIN_QUIET 4
+static int spin_fd = -2, spin_n = 0;
+static const void* spin_buf = 0;
+static size_t spin_len = 0;
+static off_t spin_off = 0;
 static int w_n = 0;
 static long w_tail = -1;
 static int n_open = 0, n_pwrite = 0;
@@ -54,8 +75,11 @@ void
 shim_log(const char* fmt, ...)
 {
     char buf[8192];
-    if (fmt[0] == 'O' && fmt[1] == ' ')
+    if (fmt[0] == 'O' && fmt[1] == ' ') {
         n_lines = 0; /* a new device call begins */
+        spin_fd = -2;
+        spin_n = 0;
+    }
     if (n_lines++ >= MAXLOG) {
         ssize_t r0 = write(1, "TRUNC\n", 6);
         (void)r0;
@@ -81,6 +105,8 @@ shim_reset(void)
     w_tail = -1;
     n_open = n_pwrite = 0;
     n_lines = 0;
+    spin_fd = -2;
+    spin_n = 0;
     memset(lock_fails, 0, sizeof lock_fails);
 }
 
@@ -106,8 +132,12 @@ w_tok(const char* t)
 {
     if (t[0] == 'F')
         return -1;
-    if (t[0] == 'E')
-        return -2;
+    if (t[0] == 'E') {
+        for (int i = 0; i < N_ERRNO; ++i)
+            if (!strcmp(t, w_errno[i].name))
+                return -2 - i;
+        return -2; /* plain E: EIO */
+    }
     return strtol(t, 0, 10);
 }
 
@@ -135,6 +165,7 @@ __wrap_open(const char* path, int flags, ...)
         return __real_open(path, flags, mode);
     char r = n_open < c_n ? c_script[n_open] : c_tail;
     n_open++;
+    spin_fd = -2;
     int fd;
     if (r == 'f') {
         fd = -1;
@@ -157,6 +188,7 @@ __wrap_flock(int fd, int op)
         return __real_flock(fd, op);
     int res;
     int was_open = fcntl(fd, F_GETFD) >= 0;
+    spin_fd = -2;
     if (fd >= 0 && fd < (int)sizeof lock_fails && lock_fails[fd]) {
         lock_fails[fd] = 0;
         res = -1;
@@ -179,9 +211,9 @@ __wrap_pwrite(int fd, const void* buf, size_t n, off_t off)
     n_pwrite++;
     ssize_t res;
     int was_open = fcntl(fd, F_GETFD) >= 0;
-    if (r == -2) {
+    if (r <= -2) {
         res = -1;
-        errno = EIO;
+        errno = w_errno[(-2 - r) % N_ERRNO].code;
     } else {
         size_t want = (r == -1 || (size_t)r > n) ? n : (size_t)r;
         if (want == 0 && n > 0 && fcntl(fd, F_GETFD) >= 0) {
@@ -208,7 +240,34 @@ __wrap_pwrite(int fd, const void* buf, size_t n, off_t off)
         }
     }
     int e = errno;
-    shim_log("S pwrite %d %lld %zu %zd k=%d\n", fd, (long long)off, n, res, was_open);
+    const char* ename = "?";
+    for (int i = 0; i < N_ERRNO; ++i)
+        if (w_errno[i].code == e)
+            ename = w_errno[i].name;
+    /* the same call again, and again nothing written? */
+    if (res <= 0 && n > 0 && spin_fd == fd && spin_buf == buf && spin_len == n && spin_off == off) {
+        ++spin_n;
+    } else {
+        spin_n = 0;
+    }
+    if (res <= 0 && n > 0) {
+        spin_fd = fd;
+        spin_buf = buf;
+        spin_len = n;
+        spin_off = off;
+    } else {
+        spin_fd = -2;
+    }
+    if (spin_n >= SPIN_LIMIT) {
+        shim_log("SPIN %d %lld %zu %zd %s %d\n", fd, (long long)off, n, res, res < 0 ? ename : "-", spin_n);
+        _exit(80);
+    }
+    if (spin_n <= SPIN_QUIET) {
+        if (res < 0)
+            shim_log("S pwrite %d %lld %zu %zd e=%s k=%d\n", fd, (long long)off, n, res, ename, was_open);
+        else
+            shim_log("S pwrite %d %lld %zu %zd k=%d\n", fd, (long long)off, n, res, was_open);
+    }
     errno = e;
     return res;
 }
@@ -219,6 +278,7 @@ __wrap_close(int fd)
     if (!shim_on)
         return __real_close(fd);
     int was_open = fcntl(fd, F_GETFD) >= 0;
+    spin_fd = -2;
     int res = __real_close(fd);
     int e = errno;
     if (fd >= 0 && fd < (int)sizeof lock_fails)
